@@ -71,6 +71,23 @@ def Hist.setMeta (h : Hist) (m : Um.E2E.EMeta) : Hist × Um.E2E.SetMetaReply :=
   | (p', .ok) => ({ p := p', vw := viewOf h.vw.me m }, .ok)
   | (_, r) => (h, r)
 
+/-- `MetaManager::handle_switch` (`UMCTL PRECHECK | PRESWITCH | FINALSWITCH` from a source proxy): C02's
+`handleSwitch`, which looks the task up under the **whole** `MigrationTaskMeta` -/
+def Hist.switch (h : Hist) (key : Um.E2E.TaskKey) (sub : Um.E2E.MgrSub) : Hist × Um.E2E.SwitchReply :=
+  let r := Um.E2E.handleSwitch h.p key sub
+  ({ h with p := r.1 }, r.2)
+
+/-- timers of a migrating task that fire without any reply from the destination
+(`RedisScanMigratingTask::run`: `tokio::time::timeout(max_migration_time, run_migration())` only logs "force to
+commit migration" and goes on *sending* FINALSWITCH — `SwitchCommitted` is stored by `finalAcked`;
+`run_migration`: the `max_blocking_time` branch only logs "Force to go ahead" and drops the blocking future) -/
+inductive SrcTimer where
+  | migrationTimeout | blockingTimeout
+  deriving DecidableEq, Repr
+
+/-- a timer alone stores no state: phases advance only on an acknowledged step (`srcStep`, `handleSwitch`) -/
+def Hist.timer (h : Hist) (_key : Um.E2E.TaskKey) (_t : SrcTimer) : Hist := h
+
 /-- `MetaManager::gen_cluster_nodes` -/
 def Hist.nodes (h : Hist) (v : Version) : Bytes := genClusterNodes h.vw (statesOf h.p) v
 
